@@ -219,7 +219,7 @@ def run(ctx):
     os.chmod(base, 0o755)
     jobs = []
     n = 0
-    ntrees = 60 if ctx.tier == 'quick' else 2500
+    ntrees = 150 if ctx.tier == 'quick' else 2500
     optsets = ['x', 'e', 'xf', 'xq0', 'xq1', 'xq2', 'xq', 'xv', 'xfi', 'xfw=out', 'xfw=new/deep/er', 'xfw=existing', 'xfv', 'efq']
     for t in range(ntrees):
         entries = fstree.gen_tree(rnd, METHODS, maxdepth=rnd.choice([1, 2, 4, 5]))
